@@ -333,9 +333,28 @@ def run(program, res, tier):
         raise AnalysisError("anchor vanished: SchemaRaises.__call__.wrapped_fn")
     wf = inner[0]
     res.analysed(call)
+    fn_param = [p for p in call.params() if p != "self"][0]
+    # the switch is a call-time setting: the decorator itself must hand back the checking wrapper whatever the switch says when the function is
+    # *declared* — a function declared with checking off would otherwise stay unchecked after SchemaCheckSwitch().on()
+    gc_ = cfgmod.build(call.node)
+    dc_ = depsmod.Deps(gc_, call.params())
+    outer_reads = [c for c in ast.walk(call.node) if isinstance(c, ast.Call) and isinstance(c.func, ast.Attribute) and c.func.attr in ("is_on", "is_off")
+                   and not any(c in list(ast.walk(f_)) for f_ in ast.walk(call.node) if isinstance(f_, ast.FunctionDef) and f_ is not call.node)]
+    if outer_reads:
+        res.fail_at("C22-S2", call, "switch-read-at-decoration",
+                    f"SchemaRaises.__call__ reads the switch (`{unparse(outer_reads[0])}`) while decorating: what it decides then stays decided — a function declared while "
+                    f"checking is off is never checked, also after SchemaCheckSwitch().on()", outer_reads[0])
+    else:
+        res.ok("C22-S2", "the decorator does not read the switch: it is consulted on every call")
+    bare = [r for r in gc_.returns() if r.stmt.value is not None
+            and not any(isinstance(x, ast.Name) and x.id == wf.name for x in ast.walk(r.stmt.value))]
+    if bare:
+        res.fail_at("C22-S2", call, "decorator-returns-unwrapped",
+                    f"`{unparse(bare[0].stmt)[:70]}` hands back something other than the checking wrapper `{wf.name}`", bare[0].stmt)
+    else:
+        res.ok("C22-S2", f"every return of the decorator hands back the checking wrapper `{wf.name}`")
     g = cfgmod.build(wf)
     rets = g.returns()
-    fn_param = [p for p in call.params() if p != "self"][0]
     fcalls = [(n, n.stmt) for n in g.stmt_nodes(("stmt",)) if isinstance(n.stmt, ast.Assign)
               and isinstance(n.stmt.value, ast.Call) and dotted_name(n.stmt.value.func) == fn_param]
     if len(fcalls) != 1 or len(rets) != 1:
